@@ -13,6 +13,8 @@ nothing but the named components changes.
 -/
 import PybtexModel.Lemmas.Interp
 import PybtexModel.Props.C12
+import PybtexModel.Props.C11
+import PybtexModel.Props.C19
 
 namespace Pybtex.Props
 open Pybtex Pybtex.Interp Pybtex.BstSem
@@ -609,9 +611,10 @@ theorem C03_builtin_call_type (f : Nat) (s : St) (k : Str) (e : Pybtex.Entry) (d
       let s' := { s with reports := s.reports ++
         [.warning ("entry type for \"".toList ++ k ++ "\" isn't style-file defined".toList)] }
       (∀ o, s.vars.getItem "default.type".toList = some o → runBuiltin (f+1) .callType s = execObj f o s') ∧
-      (s.vars.getItem "default.type".toList = none → runBuiltin (f+1) .callType s = .ok s')) := by
+      (s.vars.getItem "default.type".toList = none → runBuiltin (f+1) .callType s = .ok s')) ∧
+    (∀ s0 : St, s0.cur = none → ∃ w, runBuiltin (f+1) .callType s0 = .error (.internal w)) := by
   have hc : curEntry s = .ok (k, e, db) := by simp only [curEntry, hk, hdb, he]
-  refine ⟨?_, ?_⟩
+  refine ⟨?_, ?_, fun s0 h0 => by simp only [runBuiltin, curEntry, h0]; exact ⟨_, rfl⟩⟩
   · intro o ho; simp only [runBuiltin, hc, ho]
   · intro hn
     refine ⟨?_, ?_⟩
@@ -635,6 +638,132 @@ theorem C03_if (f : Nat) (s : St) (p : Int) (f1 f2 : Val) (r : List Val) :
     by_cases h : p > 0 <;> simp only [h, if_true, if_false]
   · ill1
   · ill1
+
+/-! ### corollaries with the theorems of C12, C11 and C19 -/
+
+/-- with C12: `text.length$` pushes the reference text length (braces not counted, a special
+character once) unless the nesting limit is exceeded -/
+theorem C03_builtin_text_length_spec (f : Nat) (s : St) (x : Str) (r : List Val) :
+    (Spec.maxDepth 0 x ≤ maxLevel →
+      runBuiltin (f+1) .textLength { s with stack := .str x :: r } =
+        .ok { s with stack := .int (Spec.textLength false 0 x) :: r }) ∧
+    (¬ Spec.maxDepth 0 x ≤ maxLevel →
+      runBuiltin (f+1) .textLength { s with stack := .str x :: r } = .error (.bibtex "too many nested braces")) := by
+  have h0 := (C03_builtin_text_length f s (.str x) x r rfl).1
+  rw [C12_len_spec] at h0
+  constructor
+  · intro h; rw [h0, if_pos h]
+  · intro h; rw [h0, if_neg h]
+
+theorem C03_builtin_text_length_spec_nonvacuous :
+    Spec.maxDepth 0 "ab{\\'e}x".toList ≤ maxLevel ∧ Spec.textLength false 0 "ab{\\'e}x".toList = 4 := by
+  decide +kernel
+
+/-- with C12: `change.case$` changes nothing but the case of letters (for a string whose special
+characters are all closed) -/
+theorem C03_builtin_change_case_spec (f : Nat) (s s' : St) (x m : Str) (c : Char) (r : List Val)
+    (hs : Spec.specialsClosed x = true)
+    (h : runBuiltin (f+1) .changeCase { s with stack := .str (c :: m) :: .str x :: r } = .ok s') :
+    ∃ y md, caseModeOf (lowerC c) = some md ∧ s' = { s with stack := .str y :: r } ∧ changeCase x md = some y ∧
+      lower y = lower x ∧ y.length = x.length := by
+  have h0 := C03_builtin_change_case f s (.str (c :: m)) (.str x) x r rfl
+  cases hmd : caseModeOf (lowerC c) with
+  | none => rw [h0.2.1 c m rfl hmd] at h; cases h
+  | some md =>
+    rw [h0.1 c m md rfl hmd] at h
+    cases hy : changeCase x md with
+    | none => rw [hy] at h; cases h
+    | some y =>
+      rw [hy] at h
+      exact ⟨y, md, rfl, by cases h; rfl, hy, C12_case_letters x y md hs hy, C12_case_len_partial x y md hs hy⟩
+
+theorem C03_builtin_change_case_spec_nonvacuous :
+    Spec.specialsClosed "Ab {C}d".toList = true ∧ changeCase "Ab {C}d".toList .l = some "ab {C}d".toList := by
+  decide +kernel
+
+/-- with C11: what `format.name$` pushes for an existing name is the outcome of the reference
+rule `Spec.formatName` (grammar + formatting rule of `Spec/NameFormat.lean`) -/
+theorem C03_builtin_format_name_spec (f : Nat) (s s' : St) (names fmt name : Str) (n : Int) (r : List Val)
+    (h1 : 1 ≤ n) (hn : (splitNameList names)[(n - 1).toNat]? = some name)
+    (h : runBuiltin (f+1) .formatName { s with stack := .str fmt :: .int n :: .str names :: r } = .ok s') :
+    ∃ out, s'.stack = .str out :: r ∧ Spec.formatName name fmt = .ok out := by
+  have h0 := C03_builtin_format_name f s (.str names) (.str fmt) names fmt n r rfl rfl
+  have hspec := C11_matches_spec name fmt
+  cases hf : formatName name fmt with
+  | error e => rw [h0.2.1 name e h1 hn hf] at h; cases h
+  | ok p =>
+    obtain ⟨out, tooMany⟩ := p
+    rw [h0.1 name out tooMany h1 hn hf] at h
+    rw [hf] at hspec
+    exact ⟨out, by cases h; rfl, hspec⟩
+
+theorem C03_builtin_format_name_spec_nonvacuous :
+    (splitNameList "Doe, John and Roe, Jane".toList)[((2 : Int) - 1).toNat]? = some "Roe, Jane".toList ∧
+    Spec.formatName "Roe, Jane".toList "{ff }{ll}".toList = .ok "Jane Roe".toList := by
+  decide +kernel
+
+/-- with C19: a buffered text of at most 79 characters is emitted as one line, right-stripped -/
+theorem C03_builtin_newline_short (f : Nat) (s : St) (h : (s.buffer.flatten.length : Int) ≤ 79) :
+    runBuiltin (f+1) .newline s = .ok { s with lines := s.lines ++ [rstrip s.buffer.flatten, ['\n']], buffer := [] } := by
+  rw [C03_builtin_newline]
+  have := (C19_short_identity 79 [' ', ' '] s.buffer.flatten h).2
+  unfold Wrap.wrapDefault
+  rw [this]
+
+theorem C03_builtin_newline_short_nonvacuous :
+    ((["ab ".toList, "c  ".toList].flatten.length : Nat) : Int) ≤ 79 ∧
+    Wrap.wrapDefault ["ab ".toList, "c  ".toList].flatten = "ab c".toList := by
+  decide +kernel
+
+/-! ### the table of the stack-only built-ins -/
+
+/-- Summary of the theorems above for the built-ins that only transform the stack: whenever the
+documented table `Doc` (in `Spec/BstSem.lean`) says that `b` turns the operands `args` into
+`res`, a call of `b` on a stack that starts with `args` replaces them by `res` and changes
+nothing else — for every state, every rest of the stack and every amount of fuel. -/
+theorem C03_builtin_table (f : Nat) (s : St) (b : Builtin) (args res r : List Val) (h : Doc b args res) :
+    runBuiltin (f+1) b { s with stack := args ++ r } = .ok { s with stack := res ++ r } := by
+  cases h with
+  | plus a b => exact (C03_builtin_plus f s a b r).1
+  | minus a b => exact (C03_builtin_minus f s a b r).1
+  | concat hx hy => exact (C03_builtin_concat f s _ _ _ _ r hx hy).1
+  | gt a b => exact (C03_builtin_gt_lt f s a b r).1
+  | lt a b => exact (C03_builtin_gt_lt f s a b r).2.1
+  | eqInt a b => exact (C03_builtin_eq f s r).1 a b
+  | eqStr hx hy => exact (C03_builtin_eq f s r).2.1 _ _ _ _ hx hy
+  | duplicate v => rfl
+  | pop v => rfl
+  | swap v w => rfl
+  | skip => rfl
+  | quote => rfl
+  | empty hx => exact (C03_builtin_empty f s _ _ r hx).1
+  | missingYes m => rfl
+  | missingNo hv => exact (C03_builtin_missing f s r).2.1 _ hv
+  | chrToInt c => rfl
+  | intToChr h0 h1 => exact (C03_builtin_int_to_chr f s _ r).1 ⟨h0, h1⟩
+  | intToStr n => rfl
+  | substring start len hx => exact (C03_builtin_substring f s _ _ start len r hx).1
+  | textLength hx hn => have := (C03_builtin_text_length f s _ _ r hx).1; rw [hn] at this; exact this
+  | textPrefix n hx hp => have := (C03_builtin_text_prefix f s _ _ n r hx).1; rw [hp] at this; exact this
+  | purify hx hp => have := (C03_builtin_purify_width_num_names f s _ _ r hx).1; rw [hp] at this; exact this
+  | width hx hw => have := (C03_builtin_purify_width_num_names f s _ _ r hx).2.1; rw [hw] at this; exact this
+  | numNames hx => exact (C03_builtin_purify_width_num_names f s _ _ r hx).2.2.1
+  | changeCase hm hx hmd hy =>
+    have := (C03_builtin_change_case f s _ _ _ r hx).1 _ _ _ hm hmd
+    rw [hy] at this; exact this
+  | addPeriod x => rfl
+  | addPeriodMissing m => rfl
+  | formatName hn hf h1 hnm hfm =>
+    have := (C03_builtin_format_name f s _ _ _ _ _ r hn hf).1 _ _ _ h1 hnm hfm
+    exact this
+
+/-- the table is inhabited for each kind of row (instances by evaluation are the
+`C03_builtin_*_nonvacuous` theorems) -/
+theorem C03_builtin_table_nonvacuous :
+    Doc .plus [.int 2, .int 1] [.int (1 + 2)] ∧ Doc .swap [.int 1, .str []] [.str [], .int 1] ∧
+    Doc .substring [.int 3, .int 2, .str "ab{c}d".toList] [.str (Spec.substring "ab{c}d".toList 2 3)] ∧
+    Doc .textLength [.str "ab{c}d".toList] [.int (4 : Nat)] :=
+  ⟨.plus 1 2, .swap _ _, .substring 2 3 rfl, .textLength rfl (by decide +kernel)⟩
 
 /-- If a run with fuel `n` has finished (with a state or with an error other than "out of
 fuel"), every larger amount of fuel gives the same result — for all six mutually recursive
@@ -857,6 +986,18 @@ theorem C03_scoping_entry_store (s : St) (k n : Str) (v : Val) :
   · intro k' hk
     show (match dget (dset s.entryVars k _) k' with | some f => f | none => []) = _
     rw [dget_dset_ne _ _ _ _ hk]; rfl
+
+/-- only `:=` touches variables: every other built-in that does not execute code leaves the
+variable table and all entry variables exactly as they are; and `:=` on a global variable
+`name` (`C03_builtin_assign_global_int/str`: the table becomes `setItem name v`) changes the
+binding of that name (up to case) only -/
+theorem C03_scoping_only_assign (f : Nat) (b : Builtin) (s s' : St) :
+    (b ≠ .callType ∧ b ≠ .if_ ∧ b ≠ .while_ ∧ b ≠ .assign → runBuiltin (f+1) b s = .ok s' →
+      s'.vars = s.vars ∧ s'.entryVars = s.entryVars) ∧
+    (∀ name v, (s.vars.setItem name v).getItem name = some v ∧
+      ∀ m, lower m ≠ lower name → (s.vars.setItem name v).getItem m = s.vars.getItem m) :=
+  ⟨fun hb h => prim_sameVars f b s s' hb h,
+   fun _ _ => ⟨getItem_setItem_same _ _ _, fun _ hm => getItem_setItem_ne _ _ _ _ hm⟩⟩
 
 /-- a whole `ITERATE` / `REVERSE` round: the database, citation list, macros and preamble are
 untouched, variables persist, and the entry variables of entries that are not in the list are
@@ -1117,7 +1258,21 @@ theorem C03_builtin_call_type_nonvacuous :
   decide +kernel
 
 
-/-- a counter-bounded loop from the initial variable table: three iterations -/
+theorem C03_builtin_cite_type_preamble_nonvacuous :
+    exSt.cur = some "k1".toList ∧
+    obs (execBody 50 [T "cite$"] exSt) = some (L ["k1"], [], []) ∧
+    top1 (runBuiltin 1 .type_ exSt) = some "article".toList ∧ top1 (runBuiltin 1 .preamble exSt) = some [] := by
+  decide +kernel
+
+theorem C03_deterministic_nonvacuous :
+    EvalBody [.int 1, .int 2] (stk []) (stk [.int 2, .int 1]) ∧ EvalVal (.fn []) (stk []) (stk []) :=
+  ⟨⟨3, rfl⟩, ⟨2, rfl⟩⟩
+
+theorem C03_scoping_only_assign_nonvacuous :
+    ((runBuiltin 1 .write { exSt with stack := [S "a"] }).toOption.map fun s => s.entryVars.length) = some 0 := by
+  decide +kernel
+
+/-- a counter-bounded loop over a global variable: three iterations -/
 theorem C03_while_unfold_nonvacuous :
     obs (execBody 200 [.int 3, Q "gi", T ":=",
           .fn [T "gi", .int 0, T ">"], .fn [T "gi", .int 1, T "-", Q "gi", T ":=", TS "x", T "write$"], T "while$",
